@@ -129,6 +129,8 @@ def impl(case):
         if len(cols) >= 2:
             try:
                 mix = [cols[0].reshape(3, 1)] + [c.copy() for c in cols[1:]]
+                if len(cols) >= 3 and case.get("mix_last"):
+                    mix = [c.copy() for c in cols[:-1]] + [cols[-1].reshape(3, 1)]     # (the column is the LAST input this time)
                 rm = m(*mix)
                 rm = rm if isinstance(rm, tuple) else (rm,)
                 rf = m(*[np.array(x) for x in np.broadcast_arrays(*mix)])
@@ -422,7 +424,7 @@ def gen(rng, tier):
         # near-grazing directions: |x|, |y| large against the unit third component
         steep = [rng.choice([-1, 1]) * 10 ** rng.uniform(2, 7), rng.choice([-1, 1]) * 10 ** rng.uniform(-2, 7), 1.0]
         rng.shuffle(steep[:2])
-        yield {"fn": "toDirectionCosines", "args": steep, "batch": batch(3), "special": "steep"}
+        yield {"fn": "toDirectionCosines", "args": steep, "batch": batch(3), "special": "steep", "mix_last": True}
         yield {"fn": "fromDirectionCosines", "args": [rng.uniform(-1, 1), rng.uniform(-1, 1), rng.uniform(0.1, 1), rng.uniform(0.5, 4)], "batch": batch(4, 0.1, 1.0)}
         d, m = rng.choice([20000.0, 95000.0, 3.0e5]), float(rng.choice([1, -1, 2, -2, 3]))
         yield {"fn": "wavelengthFromGrating", "args": [rng.uniform(-0.5, 0.5), rng.uniform(-0.5, 0.5)], "d": d, "m": m, "batch": batch(2, -0.5, 0.5)}
